@@ -178,13 +178,14 @@ def body(E, cfg):
 def configs(tier):
     cfgs = []
     for f in FIRST:
-        for s in (("none", "fwd-tail") if tier == "quick" else SECOND):
-            if tier == "quick" and s != "none" and f in ("fwd-two-segments", "rev-two-segments"):
-                continue
+        for s in SECOND:
             cfgs.append(dict(KR=6, KQ=6, first=f, second=s))
-    for f in (("fwd-middle", "rev-middle") if tier == "quick" else ("fwd-middle", "rev-middle", "fwd-start", "rev-end")):
-        for s in (("fwd-tail",) if tier == "quick" else ("fwd-tail", "rev-head", "fwd-overlap")):
+    for f in ("fwd-middle", "rev-middle", "fwd-start", "rev-end"):
+        for s in ("fwd-tail", "rev-head", "fwd-overlap"):
             cfgs.append(dict(KR=6, KQ=10, first=f, second=s))
+    if tier != "quick":
+        for f in FIRST:
+            cfgs.append(dict(KR=7, KQ=12, first=f, second="fwd-tail"))
     return cfgs
 
 
